@@ -63,6 +63,17 @@ def header_ops(r):
         ops.append(("hdr-trunc", good[:k]))
     for t, b in typed_bodies(r):
         ops.append(("type%d" % t if t in (3, 5, 6) else "type-other", cc.hdr(t, 0, len(b)) + b))
+    # a header whose type byte says "header" (1): m_msg_recv unpacks the body with the HEADER chain, which checks a second
+    # magic/version and overwrites type and retry; _job_exec then dispatches on the inner type with every other field zero
+    for t2 in (0, 1, 2, 3, 4, 5, 6, 255):
+        for retry2 in (0, 3, 6, 255):
+            inner = cc.hdr(t2, retry2, r.choice([0, 11, 2 ** 32 - 1]))
+            for tail in (b"", b"trailing", body):
+                ops.append(("hdr-in-hdr", cc.hdr(1, r.choice([0, 9]), len(inner + tail)) + inner + tail))
+    ops.append(("hdr-in-hdr", cc.hdr(1, 0, 11) + cc.hdr(2, 0, 0, cc.MAGIC + 1)))
+    ops.append(("hdr-in-hdr", cc.hdr(1, 0, 11) + cc.hdr(4, 0, 0, cc.MAGIC, 3)))
+    for k in range(0, 11):
+        ops.append(("hdr-in-hdr", cc.hdr(1, 0, k) + cc.hdr(4, 0, 0)[:k]))
     return ops
 
 
